@@ -363,7 +363,7 @@ def configs(tier):
 def run_config(cfg, tier, seed):
     if cfg.get("regs"):
         return explore_hw(build, ObserverB, cfg, tier, seed, max_states=400000)
-    return explore_hw(build, Observer, cfg, tier, seed, max_states=3_000_000, max_seconds=900)
+    return explore_hw(build, Observer, cfg, tier, seed, max_states=3_000_000, max_seconds=3000)
 
 
 def replay(data):
